@@ -450,6 +450,9 @@ func (vps *H265RawVPS) Decode(data []byte) (err error) {
 
 	vps.Vps_max_layer_id = r.ReadUint8(6)
 	vps.Vps_num_layer_sets_minus1 = r.ReadUe16()
+	if vps.Vps_num_layer_sets_minus1 > HEVC_MAX_LAYER_SETS-1 {
+		return errors.New("Invalid stream: vps_num_layer_sets_minus1 out of range.\n")
+	}
 	vps.Layer_id_included_flag = make([][HEVC_MAX_LAYERS]uint8, vps.Vps_num_layer_sets_minus1+1)
 	for i := uint16(1); i <= vps.Vps_num_layer_sets_minus1; i++ {
 		for j := uint8(0); j <= vps.Vps_max_layer_id; j++ {
@@ -472,6 +475,9 @@ func (vps *H265RawVPS) Decode(data []byte) (err error) {
 		}
 
 		vps.Vps_num_hrd_parameters = r.ReadUe16()
+		if vps.Vps_num_hrd_parameters > vps.Vps_num_layer_sets_minus1+1 {
+			return errors.New("Invalid stream: vps_num_hrd_parameters out of range.\n")
+		}
 		if vps.Vps_num_hrd_parameters > 0 {
 			vps.Hrd_layer_set_idx = make([]uint16, vps.Vps_num_hrd_parameters)
 			vps.Cprms_present_flag = make([]uint8, vps.Vps_num_hrd_parameters)
